@@ -527,6 +527,86 @@ def check_gradient(prog, rep, m, f, entry):
             'the gradient is the elevation angle of the point (pi/2 above, -pi/2 below, 0 at the viewpoint itself); ' + why)
 
 
+def check_corner_heights(prog, rep, m):
+    """T14: the height of an ENTER / EXIT corner.  The value the event list builder stores in the record's two corner fields
+    is evaluated, as the term the kernel interpreter gives for it, on small rasters that are wider than tall, taller than
+    wide and square, for every cell and every observer cell: it must be the mean of the four cells that meet at the corner -
+    the cell, its neighbour in the row, its neighbour in the column and the diagonal one - when the diagonal neighbour lies
+    inside the raster (its row below the number of ROWS, its column below the number of COLUMNS), and the cell's own height
+    otherwise.  The corner is the one `_calc_event_pos` gives for the event type (rules T1 / T2 decide that it is the first /
+    last corner in sweep order); the three-row window is supplied to the evaluation as distinct numbers per window cell."""
+    entry = 'viewshed events'
+    f = m.funcs.get('_init_event_list')
+    fpos = m.funcs.get('_calc_event_pos')
+    if f is None or fpos is None:
+        raise AnalysisIncomplete('_init_event_list / _calc_event_pos not found')
+    C = {n: const(v[0]) for n, v in m.assigns.items() if len(v) == 1 and isinstance(const(v[0]), (int, float))}
+    need = ('E_ELEV_0', 'E_ELEV_2', 'ENTERING_EVENT', 'EXITING_EVENT')
+    if any(n not in C for n in need) or len(f.params) < 4:
+        raise AnalysisIncomplete('event record constants not found')
+    k = interpret(prog, f, strict=False)
+    kpos = interpret(prog, fpos)
+    roles = sweep_roles(prog, m)
+    PP = [roles.param(fpos, r_, n_) for n_, r_ in enumerate(('etype', 'row', 'col', 'vrow', 'vcol'))]
+    raster, vp_row, vp_col = f.params[1], f.params[2], f.params[3]
+    rows_of = [L for L in k.loops if L.kind == 'range' and L.hi == Rat.atom(App('shape', [raster, 0])) and L.lo == Rat.const(0)]
+    for field, ety, label in (('E_ELEV_0', C['ENTERING_EVENT'], 'ENTER'), ('E_ELEV_2', C['EXITING_EVENT'], 'EXIT')):
+        sts = [e[1] for e in k.events if e[0] == 'store' and e[1].idx != 'all' and len(e[1].idx) == 1 and e[1].idx[0] == Rat.const(C[field]) and
+               len(e[1].loops) == 2 and isinstance(e[1].value, Rat) and not e[1].value.is_const()]
+        if len(sts) != 1 or not rows_of or sts[0].loops[0] is not rows_of[0] or sts[0].loops[1].kind != 'range' or \
+                sts[0].loops[1].hi != Rat.atom(App('shape', [raster, 1])):
+            rep.add('T14', f, entry, '%s corner height' % label, f.node.lineno, None,
+                    'the store of the corner height (record field %s) inside the row / column loops was not found' % field)
+            continue
+        st = sts[0]
+        iv, jv = Sym(st.loops[0].var), Sym(st.loops[1].var)
+        bad, n_pts, ok = [], 0, True
+
+        def window(key, idx):
+            if len(idx) != 2 or idx[0].denominator != 1 or idx[1].denominator != 1:
+                raise CannotEvaluate('window cell %s' % (idx,))
+            if idx[0] not in (0, 1, 2) or not (0 <= idx[1] < cur_shape[1]):
+                return Fraction(-999983)        # a cell outside the three-row window: no height of the raster at all
+            return Fraction(1000 * (int(idx[0]) + 1) + 7 * int(idx[1]) * int(idx[1]) + int(idx[1]))
+        try:
+            for cur_shape in ((2, 5), (5, 2), (3, 3)):
+                R_, C_ = cur_shape
+                for (vr, vc) in ((0, 0), (R_ - 1, C_ - 1), (R_ // 2, C_ // 2), (0, C_ - 1)):
+                    for i in range(R_):
+                        for j in range(C_):
+                            if (i, j) == (vr, vc):
+                                continue
+                            env = {iv: Fraction(i), jv: Fraction(j), Sym(vp_row): Fraction(vr), Sym(vp_col): Fraction(vc),
+                                   App('shape', [raster, 0]): Fraction(R_), App('shape', [raster, 1]): Fraction(C_), '__read__': window}
+                            got = evaluate(st.value, env)
+                            pos = eval_returns(kpos, {Sym(PP[0]): Fraction(ety), Sym(PP[1]): Fraction(i), Sym(PP[2]): Fraction(j),
+                                                      Sym(PP[3]): Fraction(vr), Sym(PP[4]): Fraction(vc)}, bind_atan=False)
+                            if pos is None:
+                                raise CannotEvaluate('corner of the event not evaluated')
+                            r1, c1 = 2 * pos[0] - i, 2 * pos[1] - j
+                            if r1.denominator != 1 or c1.denominator != 1 or abs(r1 - i) != 1 or abs(c1 - j) != 1:
+                                raise CannotEvaluate('the event position is not a corner of the cell')
+                            own = window(None, (Fraction(1), Fraction(j)))
+                            if 0 <= r1 < R_ and 0 <= c1 < C_:
+                                w_ = r1 - i + 1
+                                want = (window(None, (w_, c1)) + window(None, (w_, Fraction(j))) + window(None, (Fraction(1), c1)) + own) / 4
+                            else:
+                                want = own
+                            n_pts += 1
+                            if got != want:
+                                ok = False
+                                if len(bad) < 2:
+                                    bad.append('%d x %d raster, observer (%d, %d), cell (%d, %d): diagonal neighbour (%d, %d) %s the raster, '
+                                               'stored %s, expected %s' % (R_, C_, vr, vc, i, j, r1, c1,
+                                                                           'inside' if want != own else 'outside', got, want))
+        except CannotEvaluate as e_:
+            ok, bad = None, [str(e_)]
+        rep.add('T14', f, entry, '%s corner height = mean of the four cells at the corner, inside the raster (%d model cells)' % (label, n_pts),
+                st.node.lineno if hasattr(st, 'node') and st.node is not None else f.node.lineno, ok,
+                'a corner whose diagonal neighbour is inside the raster (row < rows, column < columns) gets the mean of the four '
+                'cells meeting there, any other the cell\'s own height; ' + '; '.join(bad))
+
+
 def check_axes(prog, rep, m):
     entry = 'viewshed geometry'
     for fn in ('_calc_event_grad', '_calc_dist_n_grad'):
@@ -1284,6 +1364,8 @@ def check(prog, rep):
     check_layouts(prog, rep, m)
     check_encoding(prog, rep, m)
     check_axes(prog, rep, m)
+    check_corner_heights(prog, rep, m)
+    rep.floor('T14', 2)
     rep.floor('T1', 17)
     rep.floor('T2', 16)
     rep.floor('T3', 2)
